@@ -13,7 +13,11 @@ func init() { register("C05", "exploration", checkC05) }
 
 func convFill(dt ref.DT, sh []int, salt int) *ref.T {
 	return ref.Fill(dt, sh, func(i int) float64 {
-		return float64((i*11+salt*5)%17)*0.25 - 1.9 + float64(i%3)*0.0625
+		v := float64((i*11+salt*5)%17)*0.25 - 1.9 + float64(i%3)*0.0625
+		if dt == ref.F64 {
+			v += 1e-7 / 3 * float64(i%5+1) // not representable in float32
+		}
+		return v
 	})
 }
 
